@@ -171,6 +171,54 @@ static void check_operators(const std::string& name, const std::vector<T>& g, bo
         }
 }
 
+// pairs of integral types of different widths: the hash must depend on all bits of both components
+template <typename T, typename U>
+static void check_pair_widths(const std::string& name)
+{
+    using P = std::pair<T, U>;
+    std::vector<unsigned long long> raw = { 0, 1, 2, 5, 0x7f, 0x80, 0xff, 0x100, 0x105, 0xffff, 0x10000, 0x10005,
+                                            0x20005, 0x7fffffffULL, 0x80000000ULL, 0xffffffffULL, 0x100000005ULL };
+    std::vector<T> ts;
+    std::vector<U> us;
+    for (auto r : raw)
+    {
+        T t = static_cast<T>(r);
+        U u = static_cast<U>(r);
+        bool dt = false, du = false;
+        for (auto x : ts)
+            dt = dt || x == t;
+        for (auto x : us)
+            du = du || x == u;
+        if (!dt)
+            ts.push_back(t);
+        if (!du)
+            us.push_back(u);
+    }
+    long pairs0 = 0, coll0 = 0, pairs1 = 0, coll1 = 0;
+    for (std::size_t a = 0; a < ts.size(); ++a)
+        for (std::size_t b = 0; b < us.size(); ++b)
+        {
+            P x(ts[a], us[b]);
+            for (std::size_t c = a + 1; c < ts.size(); ++c)
+            {
+                ++pairs0;
+                coll0 += nitro::lang::hash(x) == nitro::lang::hash(P(ts[c], us[b]));
+            }
+            for (std::size_t c = b + 1; c < us.size(); ++c)
+            {
+                ++pairs1;
+                coll1 += nitro::lang::hash(x) == nitro::lang::hash(P(ts[a], us[c]));
+            }
+            if (!(x == P(ts[a], us[b])) || nitro::lang::hash(x) != nitro::lang::hash(P(ts[a], us[b])))
+                viol(name + ":equal-values-hash-differently", "");
+        }
+    stats["pairs:" + name] = pairs0 + pairs1;
+    if (pairs0 && coll0 * 100 > pairs0)
+        viol(name + ":hash-ignores-component-0", std::to_string(coll0) + " collisions among " + std::to_string(pairs0));
+    if (pairs1 && coll1 * 100 > pairs1)
+        viol(name + ":hash-ignores-component-1", std::to_string(coll1) + " collisions among " + std::to_string(pairs1));
+}
+
 // hash / equality coherence for arbitrary hashable, equality-comparable values
 template <typename T, typename H>
 static void check_hash_eq(const std::string& name, const std::vector<T>& g, H&& h)
@@ -466,6 +514,15 @@ int main(int argc, char** argv)
                 viol("unordered_map<pair<int,string>,int>:wrong-value-for-key", std::to_string(i));
         }
     }
+
+    check_pair_widths<std::uint8_t, std::uint32_t>("pair<uint8,uint32>");
+    check_pair_widths<std::uint16_t, std::uint32_t>("pair<uint16,uint32>");
+    check_pair_widths<std::int8_t, std::int32_t>("pair<int8,int32>");
+    check_pair_widths<char, short>("pair<char,short>");
+    check_pair_widths<std::uint32_t, std::uint16_t>("pair<uint32,uint16>");
+    check_pair_widths<std::uint32_t, std::uint64_t>("pair<uint32,uint64>");
+    check_pair_widths<std::uint64_t, std::uint8_t>("pair<uint64,uint8>");
+    check_pair_widths<short, long long>("pair<short,longlong>");
 
     // --- variants (only the active alternative is hashed; equality also compares the index)
     using V = std::variant<int, std::string, double>;
